@@ -483,7 +483,10 @@ var spec = run.Spec[Case]{ID: "C10", Name: "orient", Gen: genCase, Prop: prop, C
 
 func TestPropOrient(t *testing.T) { run.Generated(t, spec) }
 func TestRegress(t *testing.T)    { run.Regress(t, spec) }
-func TestReplay(t *testing.T)     { run.ReplayOne(t, spec) }
+func TestReplay(t *testing.T) {
+	run.ReplayOne(t, spec)
+	run.ReplayOne(t, concSpec)
+}
 
 // TestExhaustiveGrid enumerates every ordered triple of points of the n x n
 // integer grid (n = 5 quick, 9 thorough), with extra ordinates on odd triples.
